@@ -34,7 +34,10 @@ REPO = os.environ.get('VERIF_REPO', '/repo')
 
 
 class LostAnchor(Exception):
-    pass
+    def __init__(self, msg, selector=None, file=None):
+        Exception.__init__(self, msg)
+        self.selector = selector
+        self.file = file
 
 
 class Unsupported(Exception):
@@ -245,7 +248,7 @@ def clause_label(text):
     return m.group(1) if m else None
 
 
-def splice_item(asm, spec, probe=False):
+def splice_item(asm, spec, probe=False, soft=()):
     """Append the annotated text of one item to asm.  Returns nothing."""
     sf = source(spec.file)
     try:
@@ -367,7 +370,14 @@ def splice_item(asm, spec, probe=False):
         raise Unsupported('%s: @spec/@ret on a non-fn item' % spec.selector)
     if spec.stub:
         ins.append((it.body_close - base, order, ' unimplemented!() ', spec.line, spec.props, 'inline')); order += 1
-    for ai, (side, nth, anchor, text, ln) in enumerate(spec.ats):
+    ats = spec.ats
+    if (spec.file, spec.selector) in soft:
+        # the body of this function was rewritten and some proof anchors are gone: keep the contract
+        # (@spec / @ret) and drop every body-level insertion; reported, and failures of this function
+        # are arbitrated by its twin (tools/check.py)
+        ats = []
+        asm.dropped.append((spec.file, spec.selector, 'HINTS DROPPED (anchors lost in a rewritten body)', len(spec.ats)))
+    for ai, (side, nth, anchor, text, ln) in enumerate(ats):
         rx = anchor_regex(anchor)
         ms = list(rx.finditer(item_src))
         if len(ms) < nth and ai in spec.optional:
@@ -375,7 +385,7 @@ def splice_item(asm, spec, probe=False):
             continue
         if len(ms) < nth:
             raise LostAnchor('%s: anchor <<%s>> #%d not found in %s' %
-                             (spec.selector, anchor, nth, spec.file))
+                             (spec.selector, anchor, nth, spec.file), spec.selector, spec.file)
         m = ms[nth - 1]
         pos = m.start() if side == 'before' else m.end()
         kind = 'inline' if ('\n' not in text and ALLOWED_INLINE.match(text)) else 'block'
@@ -391,7 +401,7 @@ def splice_item(asm, spec, probe=False):
         # vacuity probes: an `assert(false)` at the start of the body (and of
         # every loop body that carries an invariant) must be REJECTED.
         pts = [it.body_open - base + 1] if probe != 'loops' else [None]
-        for side, nth, anchor, text, ln in spec.ats:
+        for side, nth, anchor, text, ln in (spec.ats if (spec.file, spec.selector) not in soft else []):
             if text.lstrip().startswith('invariant'):
                 m = list(anchor_regex(anchor).finditer(item_src))[nth - 1]
                 q = msk_item.find('{', m.end() if side == 'after' else m.start())
@@ -473,7 +483,7 @@ class ModNode:
         return self.children[name]
 
 
-def assemble(unit_dir, out_path, probe=False):
+def assemble(unit_dir, out_path, probe=False, soft=()):
     """unit_dir contains unit.json:
        {"layout": [ {"module": "a::b" | "", "include": "file.rs"} |
                     {"module": "...", "overlay": "file.ov"} , ... ],
@@ -568,7 +578,7 @@ def assemble(unit_dir, out_path, probe=False):
                         asm.add(sf.src[c.head_start:c.body_open + 1] + '\n',
                                 ('repo', sp.file, c.head_start))
                         cur_container = key
-                splice_item(asm, sp, probe)
+                splice_item(asm, sp, probe, soft)
         close_container()
 
     emit(root, 0)
